@@ -20,9 +20,5 @@ mod c14;
 mod c17;
 #[cfg(kani)]
 mod c01;
-
-// concrete playback tests printed by Kani for a failing harness are replayed from here
 #[cfg(kani)]
-mod playback {
-    include!(concat!(env!("VERIF_KANI_GEN"), "/playback.rs"));
-}
+mod c03;
